@@ -231,6 +231,8 @@ func (*reader).Consume
     ensures[afterend_only] err == index.ErrOffsetAfterEnd ==>
                           !relative(offset) && len(r.gitems) > 0 && offset > r.gitems[len(r.gitems)-1].Offset
     ensures[invalid]  err == nil ==> offset <= r.gnext
+    ensures[beyond]   r.ghead && offset > r.gnext ==> err != nil && (is(err, message.ErrInvalidOffset) || ioerr(err))
+    ensures[ok]       offset == message.OffsetNewest || r.ghead && offset <= r.gnext || len(r.gitems) > 0 && offset <= r.gitems[len(r.gitems)-1].Offset ==> err == nil || ioerr(err)
     ensures[errs]     err == nil || err == index.ErrOffsetAfterEnd || err == index.ErrOffsetIndexEmpty || ioerr(err)
     ensures[failed]   err != nil ==> ret0 == OffsetInvalid && len(ret1) == 0
 
@@ -243,6 +245,15 @@ func (*reader).Get
     ensures[oldest]  offset == message.OffsetOldest && err == nil ==> len(r.gitems) > 0 && isRec(ret0, r.gfile, 0)
     ensures[newest]  offset == message.OffsetNewest && err == nil ==> len(r.gitems) > 0 && isRec(ret0, r.gfile, len(r.gitems)-1)
     ensures[failed]  err != nil ==> ret0 == message.Invalid
+    ensures[present] !relative(offset) && (exists k :: 0 <= k && k < len(r.gitems) && r.gitems[k].Offset == offset) ==> err == nil || ioerr(err)
+    ensures[hasold]  relative(offset) && len(r.gitems) > 0 ==> err == nil || ioerr(err)
+    ensures[empty]   len(r.gitems) == 0 ==> err == index.ErrOffsetIndexEmpty || ioerr(err)
+    ensures[before]  len(r.gitems) > 0 && !relative(offset) && offset < r.gitems[0].Offset ==> err == index.ErrOffsetBeforeStart || ioerr(err)
+    ensures[unassigned] len(r.gitems) > 0 && !relative(offset) && offset > r.gitems[len(r.gitems)-1].Offset && r.ghead ==> err == message.ErrInvalidOffset || ioerr(err)
+    ensures[afterend] len(r.gitems) > 0 && !relative(offset) && offset > r.gitems[len(r.gitems)-1].Offset && !r.ghead ==> err == index.ErrOffsetAfterEnd || ioerr(err)
+    ensures[missing] len(r.gitems) > 0 && !relative(offset) && r.gitems[0].Offset <= offset && offset <= r.gitems[len(r.gitems)-1].Offset
+                         && (forall k :: 0 <= k && k < len(r.gitems) ==> r.gitems[k].Offset != offset) ==> err == index.ErrOffsetNotFound || ioerr(err)
+    ensures[afterend_only] err == index.ErrOffsetAfterEnd ==> !relative(offset) && len(r.gitems) > 0 && offset > r.gitems[len(r.gitems)-1].Offset && !r.ghead
 
 
 // ================================================================ the log (C03, C04)
@@ -259,6 +270,8 @@ pred logWf(l *log) :=
             && l.readers[i].gnext <= l.readers[i+1].segment.Offset)
     && l.readers[len(l.readers)-1].ghead
 
+pred logEmpty(l *log) := forall i :: 0 <= i && i < len(l.readers) ==> len(l.readers[i].gitems) == 0
+
 pred logNext(l *log) := l.readers[len(l.readers)-1].gnext
 
 // offset o is live: some segment's index holds it
@@ -271,7 +284,8 @@ func (*log).Consume
     assigns reader.index, reader.indexLastAccess, reader.messages, reader.messagesInuse
     ensures[wf]      logWf(l)
     ensures[newest]  offset == message.OffsetNewest && err == nil ==> ret0 == logNext(l) && len(ret1) == 0
-    ensures[beyond]  offset > logNext(l) ==> err != nil
+    ensures[beyond]  offset > logNext(l) ==> err != nil && (is(err, message.ErrInvalidOffset) || ioerr(err))
+    ensures[ok]      offset <= logNext(l) ==> err == nil || ioerr(err)
     ensures[sorted]  err == nil ==> forall j :: 0 <= j && j < len(ret1) - 1 ==> ret1[j].Offset < ret1[j+1].Offset
     ensures[count]   err == nil ==> len(ret1) <= maxCount
     ensures[next]    err == nil && len(ret1) > 0 ==> ret0 == ret1[len(ret1)-1].Offset + 1
@@ -321,6 +335,98 @@ func (*log).NextOffset
     ensures err == nil ==> ret0 == logNext(l)
     ensures logWf(l)
 
+
+// ---------------------------------------------------------------- Get (C04)
+
+func (*log).Get
+    requires logWf(l)
+    assigns reader.index, reader.indexLastAccess, reader.messages, reader.messagesInuse
+    ensures[wf]       logWf(l)
+    // a non-negative offset is returned iff it is live, with its stored content
+    ensures[found]    offset >= 0 && err == nil ==> ret0.Offset == offset && live(l, offset)
+    ensures[content]  offset >= 0 && err == nil ==>
+                          (exists i, k :: 0 <= i && i < len(l.readers) && 0 <= k && k < len(l.readers[i].gitems)
+                               && l.readers[i].gitems[k].Offset == offset && isRec(ret0, l.readers[i].gfile, k))
+    ensures[live]     offset >= 0 && live(l, offset) ==> err == nil || ioerr(err)
+    ensures[deleted]  offset >= 0 && !live(l, offset) && offset < logNext(l) ==> err != nil && (is(err, message.ErrNotFound) || ioerr(err))
+    ensures[unassigned] offset >= logNext(l) ==> err != nil && (is(err, message.ErrInvalidOffset) || ioerr(err))
+    ensures[oldest]   offset == message.OffsetOldest && !logEmpty(l) ==>
+                          (err == nil || ioerr(err)) && (err == nil ==> live(l, ret0.Offset) && (forall o int64 :: live(l, o) ==> ret0.Offset <= o))
+    ensures[empty]    relative(offset) && logEmpty(l) ==> err != nil && (is(err, message.ErrInvalidOffset) || ioerr(err))
+    ensures[newest]   offset == message.OffsetNewest && !logEmpty(l) ==>
+                          (err == nil || ioerr(err)) && (err == nil ==> live(l, ret0.Offset) && (forall o int64 :: live(l, o) ==> o <= ret0.Offset))
+
+// Get agrees with Consume: Get(o) succeeds iff o is live, and Consume(o,1) returns the message with offset o iff o is live
+lemma getAgreesConsume(l *log, o int64, first int64)
+    requires logWf(l) && o >= 0 && live(l, first) && o <= first
+    requires forall p int64 :: live(l, p) && o <= p ==> first <= p          // Consume nogap_first
+    ensures  live(l, o) <==> first == o
+
+// ---------------------------------------------------------------- time lookups (C10)
+
+func (*reader).GetByTime
+    requires rdWf(r)
+    assigns r.index, r.indexLastAccess, r.messages, r.messagesInuse
+    ensures[wf]      rdWf(r)
+    // first record of the segment whose (index) timestamp is not before ts
+    ensures[found]   err == nil ==> (exists k :: 0 <= k && k < len(r.gitems) && isRec(ret0, r.gfile, k) && ret0.Offset == r.gitems[k].Offset
+                                       && r.gitems[k].Timestamp >= ts && (forall i :: 0 <= i && i < k ==> r.gitems[i].Timestamp < ts))
+    ensures[empty]   len(r.gitems) == 0 ==> err == index.ErrTimeIndexEmpty || ioerr(err)
+    ensures[before]  len(r.gitems) > 0 && ts < r.gitems[0].Timestamp ==> err == index.ErrTimeBeforeStart || ioerr(err)
+    ensures[after]   len(r.gitems) > 0 && r.gitems[len(r.gitems)-1].Timestamp < ts ==> err == index.ErrTimeAfterEnd || ioerr(err)
+    ensures[inrange] len(r.gitems) > 0 && r.gitems[0].Timestamp <= ts && ts <= r.gitems[len(r.gitems)-1].Timestamp ==> err == nil || ioerr(err)
+    ensures[before_only] err == index.ErrTimeBeforeStart ==> len(r.gitems) > 0 && ts < r.gitems[0].Timestamp
+    ensures[after_only]  err == index.ErrTimeAfterEnd ==> len(r.gitems) > 0 && r.gitems[len(r.gitems)-1].Timestamp < ts
+    ensures[failed]  err != nil ==> ret0 == message.Invalid
+
+// index timestamps never decrease across segments (message times non-decreasing with offset)
+pred logMonoTs(l *log) :=
+    forall i, j, a, b :: 0 <= i && i < j && j < len(l.readers) && 0 <= a && a < len(l.readers[i].gitems) && 0 <= b && b < len(l.readers[j].gitems)
+        ==> l.readers[i].gitems[a].Timestamp <= l.readers[j].gitems[b].Timestamp
+
+// o is a live offset whose index timestamp is at least ts
+pred liveAtOrAfter(l *log, ts int64, o int64) :=
+    exists i, k :: 0 <= i && i < len(l.readers) && 0 <= k && k < len(l.readers[i].gitems)
+        && l.readers[i].gitems[k].Offset == o && l.readers[i].gitems[k].Timestamp >= ts
+
+// a run of equal timestamps straddles a segment boundary exactly at ts (D4)
+pred tieAt(l *log, ts int64) :=
+    exists i :: 0 < i && i < len(l.readers) && len(l.readers[i].gitems) > 0
+        && l.readers[i].gitems[0].Timestamp == ts && l.readers[i-1].gitems[len(l.readers[i-1].gitems)-1].Timestamp == ts
+
+pred headEmpty(l *log) := len(l.readers[len(l.readers)-1].gitems) == 0
+
+func (*log).GetByTime
+    requires logWf(l) && logMonoTs(l)
+    assigns reader.index, reader.indexLastAccess, reader.messages, reader.messagesInuse
+    ensures[wf]       logWf(l)
+    ensures[noindex]  !l.opts.TimeIndex ==> is(err, ErrNoIndex)
+    ensures[hit]      l.opts.TimeIndex && err == nil ==> liveAtOrAfter(l, micro(start), ret0.Offset)
+    ensures[content]  l.opts.TimeIndex && err == nil ==>
+                          (exists i, k :: 0 <= i && i < len(l.readers) && 0 <= k && k < len(l.readers[i].gitems)
+                               && l.readers[i].gitems[k].Offset == ret0.Offset && isRec(ret0, l.readers[i].gfile, k))
+    // minimal: no live message at or after the time has a smaller offset
+    ensures[minimal_notie] l.opts.TimeIndex && err == nil && !tieAt(l, micro(start)) ==>
+                          forall o int64 :: liveAtOrAfter(l, micro(start), o) ==> ret0.Offset <= o
+    ensures[some]     l.opts.TimeIndex && (exists o int64 :: liveAtOrAfter(l, micro(start), o)) ==> err == nil || ioerr(err)
+    ensures[notfound] l.opts.TimeIndex && !logEmpty(l) && (forall o int64 :: !liveAtOrAfter(l, micro(start), o)) ==>
+                          err != nil && (is(err, message.ErrNotFound) || ioerr(err))
+    ensures[emptylog] l.opts.TimeIndex && logEmpty(l) ==> err != nil && (is(err, message.ErrNotFound) || is(err, message.ErrInvalidOffset) || ioerr(err))
+    // the property as stated; fails on the pinned tree exactly in the tie case excluded above (D4, KNOWN_FINDINGS.txt)
+    ensures[minimal]  l.opts.TimeIndex && err == nil ==> forall o int64 :: liveAtOrAfter(l, micro(start), o) ==> ret0.Offset <= o
+    loop 1
+      invariant[range]  0 <= i && i <= len(l.readers) - 1
+      invariant[wf]     logWf(l) && logMonoTs(l) && l.opts.TimeIndex
+      invariant[ts]     ts == micro(start)
+      invariant[newer]  forall j, k :: i < j && j < len(l.readers) && 0 <= k && k < len(l.readers[j].gitems) ==> l.readers[j].gitems[k].Timestamp > ts
+      decreases i + 1
+
+func (*log).OffsetByTime
+    requires logWf(l) && logMonoTs(l)
+    assigns reader.index, reader.indexLastAccess, reader.messages, reader.messagesInuse
+    ensures[wf]  logWf(l)
+    ensures[ok]  err == nil ==> liveAtOrAfter(l, micro(start), ret0)
+    ensures[noindex] !l.opts.TimeIndex ==> is(err, ErrNoIndex)
 
 // nothing live lies strictly between two neighbouring items of a segment (uses I2, I5 and sortedness)
 lemma contiguousRun(l *log, i int, k int, o int64)
